@@ -231,6 +231,26 @@ pub fn run(tier: &str, seed: u64, outdir: &str) {
             }
         }
     }
+    // bulk steps on the larger registry: most of the slots change in ONE update, after an earlier revocation that stays
+    for by_default in [true, false] {
+        let n = regs[1].n;
+        for idx in [1u32, n - 1] {
+            let others: Vec<u32> = (1..n).filter(|x| *x != idx).collect();
+            let (first, rest) = (others[0], others[1..].to_vec());
+            for (name, before, after) in [
+                ("bulk-revocation-after-earlier-revocation", vec![(vec![], vec![first])], vec![(vec![], rest.clone())]),
+                ("bulk-revocation-after-index0-revoked", vec![(vec![], vec![0])], vec![(vec![], others.clone())]),
+                ("bulk-revocation-then-bulk-reissue", vec![(vec![], vec![first])], vec![(vec![], rest.clone()), (rest.clone(), vec![])]),
+                ("bulk-revocation-from-clean-list", vec![], vec![(vec![], others.clone())]),
+            ] {
+                let mut before = before;
+                if !by_default {
+                    before.insert(0, (others.clone(), vec![]));
+                }
+                jobs.push(Job { class: format!("systematic:{}", name), reg: 1, by_default, idx, before, after, same_ts: false });
+            }
+        }
+    }
     let nrand = if thorough { 600 } else { 40 };
     for k in 0..nrand {
         let reg = (k % 2) as usize;
